@@ -381,6 +381,21 @@ def _prove_lb(ctx, f, term, bound, site, hyp, depth=0, trail=()):
                 break
     if multi is not None and t == multi:
         return _prove_defs(ctx, f, multi, b, hyp, depth, trail + (multi,))
+    if multi is not None:
+        # the term mentions a local with several definitions (or an element of a local vector): establish the best literal
+        # lower bound all its definitions keep (1, else 0) and retry with it as a hypothesis
+        for lb in (("lit", "1"), ("lit", "0")):
+            v, why = _prove_defs(ctx, f, multi, lb, hyp, depth + 1, trail + (multi,))
+            if v == PROVED:
+                h2 = dict(hyp)
+                h2[multi] = _as_fraction(lb)
+                F2 = _facts_at(ctx, f, site, h2)
+                if Prover(F2).prove_ge(t, b):
+                    return PROVED, "%s >= %s given %s >= %s (%s)" % (pretty(t)[:60], pretty(b)[:30], pretty(multi), lb[1], why[:160])
+                P = Prover(F2)
+                break
+            if v == REFUTED and lb == ("lit", "1"):
+                continue
     cm = P.countermodel(t, b)
     if cm is not None and not any(a[0] == "call" and "::" in str(a[1]) and False for a in leaves(t)):
         env, va, vb = cm
